@@ -637,6 +637,15 @@ let handle (fields : string list) : string * string =
     let tr = Model.grun c [] [GOpenOut one; GOpenIn one; GOpenIn one] in
     let m = (match List.rev tr with (_, GRefused) :: _ -> "second-in-refused" | _ -> "second-in-accepted") in
     (m, if m = impl then "ok" else "fail:" ^ impl)
+  | "authuser" :: user :: asked :: impl :: [] ->
+    (* C05: the tunnel runs under the name the backend confirmed; the host list is 127.0.0.<user>:3389 (round robin)
+       and nothing listens there: an allowed request ends in a failed dial, any other in access denied *)
+    let to_b str = List.map (fun c -> byte_of_int (Char.code c)) (List.of_seq (String.to_seq str)) in
+    let t = { t_target = []; t_remote = []; t_user = bytes_of_hex user } in
+    let entry = to_b "127.0.0.{{ preferred_username }}:3389" in
+    let ok = Model.wired_policy false true (to_b "roundrobin") [entry] t [] (bytes_of_hex asked) in
+    let m = Printf.sprintf "channel=%d" (int_of_n (if ok then Model.e_PROXY_INTERNALERROR else Model.e_PROXY_RAP_ACCESSDENIED)) in
+    (m, if m = impl then "ok" else "fail:tunnel-user-is-not-the-confirmed-name")
   | "pairing" :: same :: impl :: [] ->
     let c = parse_cfg "10101" "0000000" "0" in
     let one = n_of_int 1 and two = n_of_int 2 in
